@@ -207,6 +207,12 @@ def cases(tier, seed):
             # the peer is already gone when the provider tries to answer: the A-ABORT cannot be written any more, the local user
             # still has to be told and the provider has to end up idle
             yield {'state': state, 'seed': seeds(state)[0][0] if mlabel.startswith('type') else 'tiny', 'mut': mlabel, 'bytes': mraw, 'ending': 'send-fails'}
+            # what the peer sent fills one read (or two) exactly and then the peer waits for the answer: a full read says nothing
+            # about more being on its way
+            for div in (1, 2):
+                if len(mraw) % div == 0:
+                    yield {'state': state, 'seed': seeds(state)[0][0] if mlabel.startswith('type') else 'tiny', 'mut': mlabel, 'bytes': mraw,
+                           'ending': 'silence', 'mpl': len(mraw) // div}
         for sname, raw in seeds(state):
             for k in (1, 5, 6, 7, len(raw) - 1, len(raw)):
                 yield {'state': state, 'seed': sname, 'mut': 'trunc-%d' % k, 'bytes': raw[:k], 'ending': 'reset'}
@@ -284,11 +290,12 @@ def run_case(case):
         hist += [('tick', 5.0), ('tick', 5.5)]
     viol = []
     sig = 'c12:%s' % state
-    where = 'state=%s seed=%s mutation=%s ending=%s bytes=%s' % (state, case['seed'], case['mut'], case['ending'], stream[:40].hex() + ('..' if len(stream) > 40 else ''))
+    where = 'state=%s seed=%s mutation=%s ending=%s%s bytes=%s' % (state, case['seed'], case['mut'], case['ending'], ' read-size=%d' % case['mpl'] if case.get('mpl') else '',
+                                                                    stream[:40].hex() + ('..' if len(stream) > 40 else ''))
     old = signal.signal(signal.SIGALRM, _alarm)
     signal.alarm(30)
     try:
-        env = e2.Env(role, hist, budget=2000).run()
+        env = e2.Env(role, hist, budget=2000, **({'max_pdu_length': case['mpl']} if case.get('mpl') else {})).run()
     except _Timeout:
         return {'viol': [(sig + ':decoder-hang', 'a decoder did not terminate within 30 s (%s)' % where)], 'case': case, 'key': None}
     finally:
@@ -377,7 +384,7 @@ def run_case(case):
             viol.append((sig + ':told-twice', 'the local user was told %d times that the association is gone: %r (%s)' % (len(gone), gone, where)))
         if indicated and not told_gone and fin['state'] == 0:
             viol.append((sig + ':user-not-told', 'association had been indicated, provider is idle again, but no abort/release indication was given (%s)' % where))
-    key = (state, case['seed'], case['mut'], case['ending'])
+    key = (state, case['seed'], case['mut'], case['ending'], case.get('mpl'))
     return {'viol': viol, 'case': case if viol else None, 'key': key,
             'sample': {k: (v if k != 'bytes' else v.hex()) for k, v in case.items()} if case['mut'] in ('len@2=0', 'unknown-command-field') else None}
 
